@@ -829,6 +829,43 @@ def r7(ctx, R):
         raise AnalysisError(f"only {n} text searches in range-building functions")
 
 
+def r8(ctx, R):
+    R.rule("C09.R8", "an entity object that stands for another file (built on that file's syntax tree) takes its line from that file, not from the record of the statement that mentions it", floor=1, confirmed=1)
+    fobj = ctx.m.cname.get("FortranObj")
+    cone = ctx.m.cone(fobj) if fobj else set()
+    n = 0
+    for f in ctx.m.funcs.values():
+        if f.rel.endswith("debug.py"):
+            continue
+        for c in calls_in(f.node):
+            if ctx.m.enclosing_func(c) is not f or not (isinstance(c.func, ast.Name) and len(c.args) >= 2):
+                continue
+            cq = ctx.m.resolve_class_name(f.rel, c.func.id)
+            if cq is None or cq not in cone:
+                continue
+            a0 = c.args[0]
+            # <rec>.file.ast : the tree of the file a record (an INCLUDE statement's) refers to
+            if not (isinstance(a0, ast.Attribute) and a0.attr == "ast" and isinstance(a0.value, ast.Attribute) and a0.value.attr == "file"):
+                continue
+            rec = unparse(a0.value.value)
+            n += 1
+            line = c.args[1]
+            k = key(f, ctx.m.enclosing_stmt(c))
+            if isinstance(line, ast.Attribute) and unparse(line.value) == rec:
+                R.violation("C09.R8", f.short, k, loc(f, c), f"the object is built on the tree of the file `{rec}` refers to, but its line is `{unparse(line)}`, a line of the file that contains the referring statement: go-to-definition on `include 'short.f90'` written on line 7 answers line 7 of short.f90, outside a shorter included file")
+            else:
+                R.ok("C09.R8", f.short, k, loc(f, c), f"line `{unparse(line)}` does not come from the referring record")
+    if n == 0:
+        R.ok("C09.R8", "package", "no entity object is built on a referenced file's tree", "fortls:0")
+
+
+def r9(ctx, R, funcs):
+    R.rule("C09.R9", "results taken apart on the spot are never None (request handlers and what they call)", floor=10, confirmed=30)
+    from .shared import check_immediate_results
+
+    check_immediate_results(ctx, R, "C09.R9", funcs)
+
+
 def run(ctx, R):
     O = Objects(ctx)
     hs = handlers(ctx)
@@ -841,3 +878,5 @@ def run(ctx, R):
     r5(ctx, R)
     r6(ctx, R, funcs)
     r7(ctx, R)
+    r8(ctx, R)
+    r9(ctx, R, funcs)
